@@ -58,7 +58,9 @@ class Gen:
         self.ops = []
         self.handles = []      # (contract index, live?)
         self.ahs = []          # AccountState handles: [account index, put?]
-        self.hvia = []         # per contract handle: index of the AccountState it was opened through (openas), or None
+        self.hvia = []         # per contract handle: (index, generation) of the AccountState newState it embeds (openas), or None
+        self.hput = set()      # contract handles whose embedded State object has been stored by PutState
+        self.ahgen = []        # per AccountState handle: generation of its newState object (Reset makes a new one)
         self.ah_unknown = False  # an acreate on a possibly existing account: the handle table is unknown until the next clear
         self.touched = set()   # accounts that may exist
         self.nssnaps = 0
@@ -87,6 +89,7 @@ class Gen:
 
     def new_instance(self):
         self.handles, self.hvia, self.tokens, self.nsnaps, self.ncsnaps, self.ahs = [], [], [], 0, 0, []
+        self.hput, self.ahgen = set(), []
         self.nssnaps, self.ah_unknown = 0, False
 
     def clear(self):
@@ -94,6 +97,8 @@ class Gen:
             self.emit(["clear"])
         self.handles = []
         self.hvia = []
+        self.hput = set()
+        self.ahgen = []
         self.ahs = []
         self.ah_unknown = False
         self.ncsnaps = 0
@@ -135,12 +140,14 @@ class Gen:
         elif c == "aget":
             self.emit(["aget", rng.randrange(4)])
             self.ahs.append([self.ops[-1][1], False])
+            self.ahgen.append(0)
         elif c == "acreate":
             a = rng.randrange(4)
             if a in self.touched:
                 self.ah_unknown = True      # a handle is appended only if the account does not exist
             else:
                 self.ahs.append([a, False])
+                self.ahgen.append(0)
             self.emit(["acreate", a])
         elif c == "asetf":
             cand = [i for i, h in enumerate(self.ahs) if not (self.disc and h[1])]
@@ -155,12 +162,13 @@ class Gen:
             i = rng.choice(cand)
             self.emit(["openas", i])
             self.handles.append((self.ahs[i][0], True))
-            self.hvia.append(i)
+            self.hvia.append((i, self.ahgen[i]))
+            if self.ahs[i][1]:
+                self.hput.add(len(self.hvia) - 1)
             self.touched.add(self.ahs[i][0])
         elif c == "setcode":
             # disciplined: only while the embedded State is an AccountState's newState that has not been put
-            cand = [h for h in range(len(self.handles)) if not self.disc or
-                    (self.hvia[h] is not None and self.hvia[h] < len(self.ahs) and not self.ahs[self.hvia[h]][1])]
+            cand = [h for h in range(len(self.handles)) if not self.disc or (self.hvia[h] is not None and h not in self.hput)]
             if cand:
                 self.emit(["setcode", rng.choice(cand), rng.randrange(1, 6), rng.choice([0, 0, 1, 2])])
         elif c == "getcode":
@@ -203,10 +211,12 @@ class Gen:
             i = rng.randrange(len(self.ahs))
             self.emit(["aput", i])
             self.ahs[i][1] = True
+            self.hput |= {h for h, v in enumerate(self.hvia) if v == (i, self.ahgen[i])}
         elif c == "areset":
             i = rng.randrange(len(self.ahs))
             self.emit(["areset", i])
             self.ahs[i][1] = False
+            self.ahgen[i] += 1
         elif c == "open":
             ci = rng.choice([2, 3, 2, 3, 0]) if not self.disc else rng.choice([2, 3])
             self.emit(["open", ci])
@@ -582,7 +592,7 @@ def run(ctx):
         #     caller-side objects leave the visible state unchanged (hold and compare).
         NOOPS = ("aget", "acreate", "aadd", "asub", "asetf", "areset", "open", "openas", "getcode", "rawget", "rawset",
                  "setcode", "ssnap", "csnap", "snap", "clear")
-        vis, frames, sfr, ahb, hist, codes, hvia, ahcode = {}, [], [], [], [], {}, [], {}
+        vis, frames, sfr, ahb, hist, codes, hvia, ahcode, ahgen = {}, [], [], [], [], {}, [], {}, {}
         committed, staged, sframes, hs, ctoks = {}, {}, [], [], []
         for si, op in enumerate(full):
             if si >= len(of) or of[si].get("p"):
@@ -663,18 +673,19 @@ def run(ctx):
                 break
             if k == "setcode":
                 codes[op[1]] = op[2]
-                if op[1] < len(hvia) and hvia[op[1]] is not None:
-                    ahcode[hvia[op[1]]] = op[2]
+                if op[1] < len(hvia) and hvia[op[1]] is not None and hvia[op[1]][1] == ahgen.get(hvia[op[1]][0], 0):
+                    ahcode[hvia[op[1]][0]] = op[2]
             if k == "openas":
-                hvia.append(op[1])
+                hvia.append((op[1], ahgen.get(op[1], 0)))
             elif k == "open":
                 hvia.append(None)
             if k == "asetf" and op[2] == 2:
                 ahcode[op[1]] = op[3]
             elif k == "areset":
                 ahcode.pop(op[1], None)
+                ahgen[op[1]] = ahgen.get(op[1], 0) + 1
             elif k in ("clear", "reopen", "reopenat", "apply"):
-                hvia, ahcode = [], {}
+                hvia, ahcode, ahgen = [], {}, {}
             if k == "aput" and op[1] in ahcode:
                 # the code hash set through the handle (SetCodeHash, or SetCode on the contract state opened on it)
                 # is the one the account shows once the handle is put
